@@ -1,14 +1,3 @@
-"""Human-written level texts per property for MANIFEST.json."""
+"""Global MANIFEST data (per-property texts live in cfg/Cxx.py)."""
 HOOK_COMMITS = ["2cd5fda"]
 NOT_APPLICABLE_REASON = {}
-META = {}
-META["C07"] = {
-    "text": "Lean 4 theorems, for every window size, threshold, outcome history and batch partition: the v1 ring buffer refines the "
-            "abstract 'last size outcomes' specification (C07_window_refines), v2 batches decide exactly as v1 record-by-record "
-            "(C07_v1_v2_same_decisions), size 0 removes the limit, threshold 0 tolerates none, refusal is sticky. The model is tied to "
-            "the real dlqWindow of both engines by differential runs on generated sequences and to the API's config guards by regenerated facts.",
-    "note": "Proved about the model; the code is tied by correspondence testing (finite sample) and regenerated facts. Pipeline-level "
-            "DLQ clauses (exactly-once write, ack only after DLQ ack, source order) are covered by the funnel/stream components as they are added; "
-            "until then only the window clause is decided here. Trusted: Lean kernel, factgen, harness, Go runtime.",
-    "technique": "Lean 4 refinement proof (ring buffer -> sliding-window spec) + differential correspondence against the real code",
-}
